@@ -7,9 +7,10 @@ that trust each harness re-derives a sample of its driver's answers INSIDE Coq: 
 per answer, in a generated cases.v compiled against the current tree.  A wrong Extract directive, a miscompiled
 model.ml or a driver/hexio bug then makes coqc fail -> RuntimeError -> the runner reports a broken harness.
 Pattern: latmodel.coq_crosscheck (C01).  Integers travel as Z literals, indices as small nat literals."""
-import os, shutil, subprocess, tempfile
+import os, shutil, subprocess, tempfile, time
 from lib import VERIF, scaled_ints
 
+LAST_WALL = 0.0     # seconds spent in the last compile_goals (generation excluded)
 NAT_MAX = 4000      # never write a nat numeral above a few thousand (unary)
 
 
@@ -68,6 +69,8 @@ def goal(lhs, rhs):
 def compile_goals(tag, imports, body, what, timeout=900, stdlib="List ZArith Bool"):
     """write cases.v (header + body) under a fresh /var/tmp directory, compile it with coqc against /verif/coq, remove the
     directory; RuntimeError when coqc fails.  Returns the number of Goal sentences."""
+    global LAST_WALL
+    LAST_WALL, t0 = 0.0, time.time()
     goals = sum(1 for ln in body if ln.startswith("Goal "))
     if not goals:
         return 0
@@ -92,4 +95,5 @@ def compile_goals(tag, imports, body, what, timeout=900, stdlib="List ZArith Boo
                                f" (coqc exit {p.returncode}): " + msg)
     finally:
         shutil.rmtree(d, ignore_errors=True)
+        LAST_WALL = round(time.time() - t0, 1)
     return goals
